@@ -81,7 +81,7 @@ func implDecide(raw json.RawMessage) (any, error) {
 	if err != nil {
 		return nil, err
 	}
-	cons := disruption.MakeConsolidation(e.W.Clock, e.W.Cluster, e.Client, e.Prov, e.W.CP, e.Rec, e.Queue)
+	cons := disruption.MakeConsolidation(e.W.Clock, e.W.Cluster, e.Client, e.Prov, e.CP, e.Rec, e.Queue)
 	for _, d := range in.Decisions {
 		var m disruption.Method
 		switch d.Method {
